@@ -68,8 +68,19 @@ def run_variant(args):
         return name, "error", "%s: %s | %s" % (type(e).__name__, e, traceback.format_exc().splitlines()[-2:])
 
 
+def global_twins(ctx, prop):
+    """behaviour-preserving whole-tree transformations every check must stay silent on"""
+    from .transforms import alpha_rename, reformat
+    out = []
+    for name, fn in (("twin-whole-tree-reformatted", reformat), ("twin-all-locals-renamed", alpha_rename)):
+        ov = fn(ctx.repo)
+        out.append(Variant(name, prop, [(rel, None, txt) for rel, txt in sorted(ov.items())], "silent"))
+    return out
+
+
 def run_selftest(ctx, chk, variants):
     jobs = int(os.environ.get("VERIF_JOBS", "16"))
+    variants = list(variants) + global_twins(ctx, chk.prop)
     args = [(ctx.repo.root, v.prop, v.name, v.edits, v.expect, v.rule) for v in variants]
     results = []
     if not args:
